@@ -1,5 +1,89 @@
-import WhVerif.Spec.C01
+import WhVerif.Lemmas.C01Dp
+/-!
+# C01 — property theorems (about the model `WhVerif.C01` of `PedigreeDPTable`)
+
+Statement of the property: "the cost reported by the default phasing algorithm equals the true minimum of the
+weighted (Pedigree) MEC objective over all read bipartitions, transmission vectors and admissible allele
+assignments".  `optCost` (Spec/C01.lean) is that minimum by plain enumeration; `dpCost` (Model/C01.lean) is the
+column DP with forward/backward projections as the code computes it.
+-/
 namespace WhVerif.Props.C01
-open WhVerif.C01
-theorem placeholder_popcount_zero : popcount 0 = 0 := by unfold popcount; simp
+open WhVerif.C01 WhVerif.Cost
+
+/-- **Optimality**, unbounded in reads, columns, coverage, individuals, trios, weights, genotype constraints
+(trusted or phred) and recombination costs: for every instance whose reads are sorted by first column, the DP
+value is the minimum of the objective over ALL bipartitions of the reads and ALL transmission vectors. -/
+theorem dp_optimal (I : Inst) (h : WF I) : dpCost I = optCost I :=
+  dpCost_eq_optCost I h
+
+/-- the same, spelled out without `minOver`: `dpCost` is a lower bound of the objective on every solution and
+is attained by some solution (or is `none` = infeasible, and then every solution is infeasible). -/
+theorem dp_optimal_spelled (I : Inst) (h : WF I) :
+    (∀ β τ, β.length = I.nreads → τ.length = I.ncols → (∀ t ∈ τ, t < I.ntrans) →
+        cle (dpCost I) (totalCost I β τ)) ∧
+    (dpCost I = none ∨ ∃ β τ, β.length = I.nreads ∧ τ.length = I.ncols ∧ (∀ t ∈ τ, t < I.ntrans) ∧
+        totalCost I β τ = dpCost I) := by
+  rw [dp_optimal I h]
+  have hm := minOver_isMin (solutions I) (fun s => totalCost I s.1 s.2)
+  constructor
+  · intro β τ h1 h2 h3
+    exact hm.lb (β, τ) ((mem_solutions I (β, τ)).mpr ⟨h1, h2, h3⟩)
+  · rcases hm.att with e | ⟨⟨β, τ⟩, hx, e⟩
+    · exact Or.inl e
+    · have := (mem_solutions I (β, τ)).mp hx
+      exact Or.inr ⟨β, τ, this.1, this.2.1, this.2.2, e⟩
+
+/-- infeasibility (the "Mendelian conflict" exception) means that NO bipartition / transmission vector has an
+admissible allele assignment in every column -/
+theorem infeasible_iff (I : Inst) (h : WF I) :
+    dpCost I = none ↔ ∀ β τ, β.length = I.nreads → τ.length = I.ncols → (∀ t ∈ τ, t < I.ntrans) →
+      totalCost I β τ = none := by
+  have hs := dp_optimal_spelled I h
+  constructor
+  · intro hn β τ h1 h2 h3
+    have := hs.1 β τ h1 h2 h3
+    rw [hn] at this
+    cases hc : totalCost I β τ with
+    | none => rfl
+    | some v => rw [hc] at this; simp [cle] at this
+  · intro hall
+    rcases hs.2 with e | ⟨β, τ, h1, h2, h3, e⟩
+    · exact e
+    · rw [← e]; exact hall β τ h1 h2 h3
+
+/-- the code's backward projection `index & (2^w - 1)` is the restriction of the bipartition to the reads
+shared with the previous column — because (and only because) reads are sorted -/
+theorem backproj_is_restriction (I : Inst) (h : WF I) (c : Nat) (β : List Bool) :
+    (restrict β (I.activeAt (c + 1))).take (I.sharedAt c).length = restrict β (I.sharedAt c) := by
+  unfold restrict
+  rw [← List.map_take, shared_prefix I h c]
+
+/-- and on indices: `idx % 2^w` encodes the first `w` bits -/
+theorem backproj_index (k w idx : Nat) (h : idx < 2 ^ k) :
+    natOfBits ((bitsOf k idx).take w) = idx % 2 ^ w := by
+  rw [natOfBits_take, natOfBits_bitsOf k idx h]
+
+/-! Non-vacuity: a concrete trio instance (3 reads, 3 columns, distinct weights) satisfies `WF`, and the
+theorem's two sides evaluate to the same non-trivial number. -/
+def exampleInst : Inst :=
+  { ncols := 3
+    reads := [ { ind := 0, first := 0, last := 2, entries := [(0, 0, 5), (1, 1, 7), (2, 0, 3)] },
+               { ind := 2, first := 0, last := 1, entries := [(0, 1, 4), (1, 1, 6)] },
+               { ind := 2, first := 1, last := 2, entries := [(1, 0, 2), (2, 1, 9)] } ]
+    nind := 3
+    trios := [(0, 1, 2)]
+    geno := [ [[none, some 0, none], [none, some 0, none], [none, some 0, none]],
+              [[some 0, none, none], [none, some 0, none], [some 0, none, none]],
+              [[none, some 0, none], [none, some 0, none], [none, some 0, none]] ]
+    recomb := [0, 10, 10] }
+
+theorem exampleInst_wf : WF exampleInst := by
+  constructor
+  intro r1 r2 h1 h2
+  have hall : ∀ r2, r2 < 3 → ∀ r1, r1 ≤ r2 → (exampleInst.read r1).first ≤ (exampleInst.read r2).first := by
+    decide
+  exact hall r2 h2 r1 h1
+
+example : dpCost exampleInst = optCost exampleInst := dp_optimal _ exampleInst_wf
+
 end WhVerif.Props.C01
